@@ -277,13 +277,16 @@ Qed.
 Module WideTopExamples.
   Import WideExamples.
   (** prog -v (Count) -o/--opt [<v>...] (Append, num_args 0.., no default-missing) -x (SetTrue, overrides v)
-      <rest>... (Append positional, one value per occurrence) *)
+      <rest>... (Append positional, one value per occurrence)
+      -d [<v>] (Append, num_args 0..=1, value delimiter ',', default-missing "x,y") *)
   Definition c1 : cmd := (cmd_new [112]) <| c_args := [
      (mk [118]) <| a_short := Some 118 |> <| a_action := Some ACount |>;
      (mk [111]) <| a_short := Some 111 |> <| a_long := Some [111; 112; 116] |> <| a_action := Some AAppend |>
                 <| a_num := Some r_full |>;
      (mk [120]) <| a_short := Some 120 |> <| a_action := Some ASetTrue |> <| a_overrides := [[118]] |>;
-     (mk [82]) <| a_action := Some AAppend |> <| a_num := Some r_single |> ] |>.
+     (mk [82]) <| a_action := Some AAppend |> <| a_num := Some r_single |>;
+     (mk [100]) <| a_short := Some 100 |> <| a_action := Some AAppend |> <| a_num := Some {| vmin := 0; vmax := 1 |} |>
+                <| a_delim := Some 44 |> <| a_default_missing := [[120; 44; 121]] |> ] |>.
   Definition bin : bytes := [112].
   Definition cb : cmd := build_self (with_bin c1 bin).
   Definition argB (i : id) : arg := match find_arg cb i with Some a => a | None => arg_new [] end.
@@ -327,6 +330,22 @@ Module WideTopExamples.
     destruct (wide_top_append c1 bin lineM (occs lineM) (result lineM) (argB [82]) classM okM Hin ltac:(vmr) OF
                 ltac:(vm_compute; lia)) as [e [Ge [Re Se]]].
     unfold entry. assert (E : a_id (argB [82]) = [82]) by vmr. rewrite E in Ge. rewrite Ge. cbn [option_map].
+    rewrite Re, Se. vmr.
+  Qed.
+  (** optional value, default_missing_value and delimiter: -d -d a,b -d=c : the value-less occurrence takes the
+      default-missing value, every occurrence is split at the delimiter, one group per occurrence *)
+  Definition lineD : list bytes := [[45;100]; [45;100]; [97;44;98]; [45;100;61;99]].
+  Example classD : wide_class c1 bin lineD (occs lineD).
+  Proof. unfold wide_class. split; [|split; [|split]]; vmr. Qed.
+  Example okD : parse_top c1 (bin :: lineD) = OOk (result lineD).
+  Proof. vmr. Qed.
+  Example append_delim : entry lineD [100] = Some (Some SCmdLine, [[[120]; [121]]; [[97]; [98]]; [[99]]]).
+  Proof.
+    assert (Hin : In (argB [100]) (c_args cb)) by in_args.
+    assert (OF : forall b, In b (c_args cb) -> overridden cb b (a_id (argB [100])) = false) by (apply no_overrides_dec; vmr).
+    destruct (wide_top_append c1 bin lineD (occs lineD) (result lineD) (argB [100]) classD okD Hin ltac:(vmr) OF
+                ltac:(vm_compute; lia)) as [e [Ge [Re Se]]].
+    unfold entry. assert (E : a_id (argB [100]) = [100]) by vmr. rewrite E in Ge. rewrite Ge. cbn [option_map].
     rewrite Re, Se. vmr.
   Qed.
   (** the per-value closed form and the bare-option closed form *)
